@@ -232,6 +232,30 @@ def run_wallets(ctx, nets):
             if hit:
                 ctx.violation('private key material in a wallet public view / default export', {'op': 'view %s' % vname, 'wallet': name,
                                                                                                 'encodings_found': hit[:5]})
+        # the same public views right after RE-OPENING the wallet (key objects loaded from the database, nothing cached yet)
+        for history in ('reopen', 'reopen-then-key'):
+            wr = Wallet('c16_' + name, db_uri=uri)
+            rviews = {}
+            try:
+                if history == 'reopen-then-key':
+                    wr.main_key.key()
+                pm = wr.public_master()
+                rviews['public_master.wif'] = [str(pm.wif).encode()]
+                rviews['public_master repr'] = [repr(pm).encode()]
+                rviews['public_master object'] = blobs_of(pm)
+                for wk in keys:
+                    pk = wr.key(wk.key_id).public()
+                    rviews['WalletKey(%d).public()' % wk.key_id] = blobs_of(pk) + [repr(pk).encode(), str(pk.wif).encode()]
+                rviews['main_key.public()'] = blobs_of(Wallet('c16_' + name, db_uri=uri).main_key.public())
+            except Exception as e:
+                ctx.count('reopen-view-raised:' + type(e).__name__)
+            for vname, blobs in rviews.items():
+                ctx.evals += 1
+                ctx.count('wallet-view-after-%s' % history)
+                hit = leaks(allenc, blobs)
+                if hit:
+                    ctx.violation('private key material in a public view of a re-opened wallet', {'op': 'view %s after %s' % (vname, history), 'wallet': name,
+                                                                                                   'encodings_found': hit[:5]})
         # watch-only wallet from the account public key
         pubwif = w.public_master().wif
         w2 = Wallet.create('c16_watch_' + name, keys=pubwif, network='bitcoin', db_uri=uri, **kw)
